@@ -39,20 +39,23 @@ def fn_options():
     return [(s, "file", f) for s in FN_SPECS for f in ("decl", "def")] + [(s, "block", "decl") for s in FN_SPECS]
 
 
-def render(kind, hist, label=False):
+def render(kind, hist, label=False, arr=None):
     """Source text of a history for identifier `x` (object) or `f` (function).
 
     label: the first file-scope declaration that can carry one gets an assembler label; every later declaration
     (file or block scope) must inherit it."""
     out = []
     nblock = 0
-    for spec, scope, form in hist:
+    for i, (spec, scope, form) in enumerate(hist):
         sp = spec + " " if spec else ""
         lab = ""
         if label and scope == "file" and (kind == "obj" or form == "decl"):
             lab = ' __asm__("lab_x")'
             label = False
-        if kind == "obj":
+        if kind == "obj" and arr:
+            # arr: per declaration "" (no length) or a length; the object's type is the composite of all of them (6.2.7)
+            d = "%sint x[%s]%s%s;" % (sp, arr[i], lab, " = { 1 }" if form == "def" else "")
+        elif kind == "obj":
             d = "%sint x%s%s;" % (sp, lab, " = 1" if form == "def" else "")
         else:
             d = "%sint f(void)%s%s" % (sp, lab, " { return 1; }" if form == "def" else ";")
@@ -61,7 +64,9 @@ def render(kind, hist, label=False):
             out.append("void host%d(void) { %s }" % (nblock, d))
         else:
             out.append(d)
-    if any(scope == "file" for _, scope, _ in hist):
+    if arr:
+        out.append("int use(void) { %sreturn x[0]; }" % ("" if any(scope == "file" for _, scope, _ in hist) else "extern int x[]; "))
+    elif any(scope == "file" for _, scope, _ in hist):
         out.append("int use(void) { return %s; }" % ("x" if kind == "obj" else "f()"))
     else:
         # the identifier is not in scope at file level: refer to it through a block-scope declaration
@@ -168,6 +173,10 @@ def compare(ctx, src, res, what):
         sig = "reject:" + re.sub(r"'[^']*'", "X", msg.split("error:")[-1].strip())[:50]
         if "redefined" in msg and "_Thread_local" in src:
             sig = "thread-local-tentative-then-definition"
+        # same root (tentative thread-local definitions are emitted at once instead of at the end of the unit): one of
+        # unknown length is rejected where it stands
+        if "has incomplete type" in msg and re.search(r"(?m)^(static )?_Thread_local int x\[\]( __asm__\(\"lab_x\"\))?;", src):
+            sig = "thread-local-tentative-then-definition"
         res.fail = dict(sig=sig,
                         msg="valid unit rejected (%s): %s" % (what, msg[:200]), input=src)
         return False
@@ -213,6 +222,14 @@ def hist_enum(ctx):
                     yield {"kind": kind, "hist": [list(h) for h in hist]}
                     if hist[0][1] == "file" and (kind == "obj" or hist[0][2] == "decl") and (n <= 2 or any(h[1] == "block" for h in hist[1:])):
                         yield {"kind": kind, "hist": [list(h) for h in hist], "label": True}
+        if kind == "obj":
+            # array-typed histories: which declarations give the length
+            for n in (1, 2, 3):
+                for hist in itertools.product(opts, repeat=n):
+                    for arr in itertools.product(("", "3"), repeat=n):
+                        k += 1
+                        if n <= 2 and (ctx.tier == "thorough" or n == 1 or (k * 2654435761 + ctx.seed * 97) % 3 == 0) or (k * 2654435761 + ctx.seed * 97) % (23 if ctx.tier == "thorough" else 211) == 0:
+                            yield {"kind": kind, "hist": [list(h) for h in hist], "arr": list(arr)}
         if ctx.tier == "thorough":
             for hist in itertools.product(opts, repeat=4):
                 k += 1
@@ -223,7 +240,7 @@ def hist_enum(ctx):
 def hist_check(case, ctx):
     res = Result()
     hist = [tuple(h) for h in case["hist"]]
-    src = render(case["kind"], hist, case.get("label", False))
+    src = render(case["kind"], hist, case.get("label", False), case.get("arr"))
     ok = compare(ctx, src, res, "history")
     if case.get("label"):
         res.labels.append("asm-label-history" + ("-valid" if ok else ""))
@@ -231,6 +248,8 @@ def hist_check(case, ctx):
         res.keys.append(sha(src))
     if ok:
         res.labels.append("valid-history-len%d" % len(hist))
+        if case.get("arr") and len(set(case["arr"])) == 2:
+            res.labels.append("valid-array-history-mixed-lengths")
     res.sample = {"history": src}
     return res
 
